@@ -767,6 +767,39 @@ func (e *Engine) callBuiltin(st *State, name string, args []Value, cc *ssa.CallC
 		return e.ret(st, Poison{"clear"})
 	case "recover":
 		return e.ret(st, Iface{})
+	case "SliceData":
+		if sl, ok := args[0].(Slice); ok {
+			if sl.Obj == nil {
+				return e.ret(st, Pointer{})
+			}
+			return e.ret(st, e.sliceElemPtr(sl, e.c64(0)))
+		}
+	case "StringData":
+		if s0, ok := args[0].(Str); ok {
+			so := e.strObj(st, s0)
+			return e.ret(st, e.sliceElemPtr(Slice{Obj: so.Obj, Base: so.Base, Off: so.Off, Len: so.Len, Cap: so.Len}, e.c64(0)))
+		}
+	case "String", "Slice":
+		p, ok := args[0].(Pointer)
+		n, ok2 := args[1].(*Term)
+		if ok && ok2 {
+			n = e.tt.Resize(n, 64, true)
+			if p.Obj == nil {
+				if name == "String" {
+					return e.ret(st, Str{Conc: true})
+				}
+				return e.ret(st, Slice{})
+			}
+			if len(p.Path) == 0 {
+				return e.ret(st, Poison{"unsafe." + name + " of non-element pointer"})
+			}
+			last := p.Path[len(p.Path)-1]
+			sl := Slice{Obj: p.Obj, Base: p.Path[:len(p.Path)-1], Off: e.pathTerm(last), Len: n, Cap: n}
+			if name == "String" {
+				return e.ret(st, e.bytesToStr(st, sl))
+			}
+			return e.ret(st, sl)
+		}
 	case "ssa:wrapnilchk":
 		p, _ := args[0].(Pointer)
 		if p.Obj == nil {
